@@ -26,6 +26,13 @@ pub fn scratch_root() -> PathBuf {
     base.join(format!("pocket-sim.{}", std::process::id()))
 }
 
+/// remove what a (dead or killed) child process left behind
+pub fn cleanup_scratch_of(pid: u32) {
+    if let Some(parent) = scratch_root().parent() {
+        let _ = std::fs::remove_dir_all(parent.join(format!("pocket-sim.{pid}")));
+    }
+}
+
 pub fn cleanup_scratch_root() {
     let _ = std::fs::remove_dir_all(scratch_root());
 }
